@@ -596,6 +596,12 @@ def ff_family(w, pid, corrupt, what):
     q = Q(w)
     known = vlib.load_known()
     run_mc(w, [("hg1", "MC_hg1.cfg", 4, 300)])
+    if pid == "C13":
+        # design level: Babble.tla with fast-forward (BabbleFF.tla), N = 4 with a validator that
+        # receives nothing until it resets from a peer's anchor; simulation to 150 events
+        r = run_sim(w, "ff4sim", "MC_ff4_sim.cfg", 2 if q else 10, 700, module="BabbleFF.tla", workers=8, timeout=1500)
+        if r.get("violated"):
+            w.notes.append("spec-level: %s violated in simulation of MC_ff4_sim.cfg (model only; not a verdict)" % r["violated"])
     traces, sums = drive_all(w, gossip_specs(w, ff_kinds(w, q)), mode="ff")
     if pid in ("C12", "C14"):
         # fast-syncing joiners in histories with membership changes: former validators
